@@ -695,7 +695,7 @@ package websocket
 
 //@ func newConn
 //@ tags C01 C03 C20
-//@ requires conn != nil
+//@ requires conn != nil && writeBufferSize <= 1099511627776 && readBufferSize <= 1099511627776
 //@ requires imp(br != nil, br.g_size >= 125 && br.g_buf > 0 && br.g_buffered >= 0 && br.g_rd >= 0)
 //@ requires imp(region(writeBuf) != 0, len(writeBuf) >= 139 && off(writeBuf) == 0 && region(writeBuf) > 0)
 //@ modifies
